@@ -204,6 +204,12 @@ def compare_value(I, op, a, b):
 
 
 def binop_value(I, op, a, b):
+    if isinstance(op, ast.Add) and _is_arr(I, a) and _is_arr(I, b) and I.heap[a.oid].get("pytype") == "list" \
+            and I.heap[b.oid].get("pytype") == "list":
+        # list + list: concatenation (a new list)
+        pa, pb = I.heap[a.oid], I.heap[b.oid]
+        na, ata, atb = pa["len"], pa["at"], pb["at"]
+        return sym_seq(I, lambda i: vite(i < na, ata(i), atb(i - na)), z3.simplify(na + pb["len"]), "list")
     if _is_arr(I, a) or _is_arr(I, b):
         return seq_elementwise(I, a, b, lambda x, y: I.binop(op, x, y), "arithmetic")
     raise Unsupported("binary operation on %r and %r" % (a, b))
@@ -253,6 +259,13 @@ def call_method(I, r, name, args, kwargs):
             k = sh(r.t)
             I.add_key(k)
             return KeyV(k)
+        if name == "verify" and len(args) == 1:
+            # TRUSTED model of AbstractContract.verify / Rate.verify (3 lines each): a negative price, resp. a rate >= 25%, is refused
+            m = lift_fl(args[0])
+            bad = z3.If(is_rate(r.t), z3.And(z3.Not(m.nan), m.v >= z3.RealVal("0.25")), z3.And(z3.Not(m.nan), m.v < 0))
+            if I.branch(bad):
+                raise PyRaise("ValueError", "contract.verify")
+            return None
         raise Unsupported("contract method %s" % name)
     if isinstance(r, SuperRef):
         # the only base-class call in the code under contract: dict.__init__(data) of the allocation classes
@@ -718,6 +731,18 @@ def deque_new(I, args, kwargs):
     maxlen = kwargs.get("maxlen", args[1] if len(args) > 1 else None)
     if isinstance(items, Obj) and items.kind == "seq" and "items" in I.heap[items.oid]:
         items = I.heap[items.oid]["items"]
+    if isinstance(items, Obj) and items.kind == "seq" and "at" in I.heap[items.oid]:
+        # deque(symbolic list, maxlen=m): the last min(len, m) items, in order
+        src = I.heap[items.oid]
+        n, at = src["len"], src["at"]
+        if maxlen is None:
+            return sym_seq(I, at, n, "deque", maxlen=None)
+        m = maxlen.v if isinstance(maxlen, In) else None
+        if m is None:
+            raise Unsupported("deque maxlen %r" % (maxlen,))
+        if I.branch(n <= m):
+            return sym_seq(I, at, n, "deque", maxlen=m)
+        return sym_seq(I, lambda i, at=at, n=n, m=m: at(i + n - m), m, "deque", maxlen=m)
     if not isinstance(items, (list, tuple)):
         raise Unsupported("deque(%r)" % (items,))
     ml = None
